@@ -336,11 +336,16 @@ func (v *numericValidator) generate(out *codegen.Emitter, format string) {
 	}
 
 	if v.multipleOf != nil {
-		if v.roundToInt {
+		if v.roundToInt && isIntegral(*v.multipleOf) {
 			out.Printlnf(`if %s %s%s %% %v != 0 {`, checkPointer, pointerPrefix, value, v.valueOf(*v.multipleOf))
 		} else {
-			out.Printlnf(
-				`if %s math.Abs(math.Mod(%s%s, %v)) > 1e-10 {`, checkPointer, pointerPrefix, value, v.valueOf(*v.multipleOf))
+			operand := pointerPrefix + value
+			if v.roundToInt {
+				// A fractional multipleOf cannot be truncated to an integer modulus.
+				operand = "float64(" + operand + ")"
+			}
+
+			out.Printlnf(`if %s math.Abs(math.Mod(%s, %v)) > 1e-10 {`, checkPointer, operand, *v.multipleOf)
 		}
 
 		out.Indent(1)
@@ -393,6 +398,10 @@ func (v *numericValidator) desc() *validatorDesc {
 		hasError:            true,
 		beforeJSONUnmarshal: false,
 	}
+}
+
+func isIntegral(val float64) bool {
+	return val == math.Trunc(val)
 }
 
 func (v *numericValidator) valueOf(val float64) any {
